@@ -22,7 +22,7 @@
                                DepthLimit: property C07)
      no_retyped_variant R T tv no union variant the reader knows arrives with another wire type -- finding F-08a: the
                                union template matches on the id only; refuted without it (C08_union_retyped_refuted). *)
-From PVGen Require Import Gen GenSpec EvoSpec Proofs.EvoBase Proofs.EvoP Proofs.EvoTopP Proofs.EvoErrP Proofs.EvoDeclP Proofs.EvoSkipP.
+From PVGen Require Import Gen GenSpec EvoSpec Proofs.EvoBase Proofs.EvoP Proofs.EvoTopP Proofs.EvoErrP Proofs.EvoDeclP Proofs.EvoDeepP Proofs.EvoSkipP.
 From PV Require Import Proofs.HeaderP.
 Open Scope Z_scope.
 
@@ -192,3 +192,19 @@ Print Assumptions C08_last_carried_is_last.
 Theorem C08_last_carried_none : forall R f fs, last_carried R f fs = None -> existsb (carries R f) fs = false.
 Proof. exact last_carried_none. Qed.
 Print Assumptions C08_last_carried_none.
+
+(* the third error a generated decoder may answer well-formed input with (besides a missing required field and the union
+   conditions): an IGNORED field whose value nests deeper than MAXIMUM_SKIP_DEPTH = 64 is refused by the skipper with
+   DepthLimit (property C07) -- [evo_dom] excludes it from C08_refines / C08_tolerant; here it is a theorem, on every input
+   the generic reader accepts: the fields before it are in the domain and their views succeed (view_fields: the struct
+   clause of [view], Proofs/EvoBase.v) *)
+Theorem C08_depth_limit : forall R p fuel T n dfs kp ia s a id x b s' vars1,
+  read_val p fuel (ttype_of_ty R T) s = Ok (VStruct (a ++ (id, x) :: b), s') -> r_pfield (rc s) = false ->
+  resolve R T = TyRef n -> lookup R n = Some (DStruct dfs kp ia) ->
+  walk_fields R skippable true dfs a = true -> walk_fields R (fun _ => true) false dfs a = true ->
+  match_field R dfs 0 (Some id) (ttype_of x) = None ->
+  skippable x = false ->
+  view_fields R dfs a (map init_var dfs) = Ok vars1 ->
+  gen_decode R p fuel T s = Err EDepthLimit.
+Proof. exact evo_depth_limit. Qed.
+Print Assumptions C08_depth_limit.
